@@ -54,6 +54,11 @@ pub fn flush() {
     });
 }
 
+/// Largest number of workers any iteration below depth 3 ran with since the last call.
+pub fn take_shallow_workers_max() -> usize {
+    SHALLOW_WORKERS_MAX.swap(0, Ordering::SeqCst)
+}
+
 pub fn set_logging(table_events: bool, whitebox_events: bool) {
     LOG_TT.store(table_events, Ordering::SeqCst);
     LOG_WB.store(whitebox_events, Ordering::SeqCst);
@@ -251,6 +256,7 @@ pub(super) fn wb_descend(mv: &Move, extension: usize) {
 // `QS_BUDGET` events per thread and search; when it runs out inside one, `QAbandon` is logged and
 // the rest of that capture search is silent).
 
+static SHALLOW_WORKERS_MAX: AtomicUsize = AtomicUsize::new(0);
 static QS_EVERY: AtomicUsize = AtomicUsize::new(0);
 static QS_BUDGET: AtomicUsize = AtomicUsize::new(0);
 
@@ -422,6 +428,9 @@ pub struct WorkerGuard {
 pub(super) fn worker_enter(id: usize, count: usize, depth: usize, search_depth: usize) -> WorkerGuard {
     set_thread_tag(id);
     qs_reset_thread();
+    if depth < 3 {
+        SHALLOW_WORKERS_MAX.fetch_max(count, Ordering::SeqCst);
+    }
     if wb_on() {
         emit(format!(
             "\"ev\":\"WorkerStart\",\"iter\":{},\"search_depth\":{},\"workers\":{}",
